@@ -14,8 +14,9 @@ TRUSTED = ["cv2.findContours is a black box: no model of it is attempted; what F
            "output; the contours and the hierarchy handed to the filter model and to the D26 predicate are traced by the harness with the parser's own OpenCV call",
            "the clean-up: Model/SkeletonT3.v get_artifacts / t3 tied exactly to Skeleton.get_artifacts / do_t3_transition, step by step, on value snapshots taken "
            "around the real calls while the images are parsed (up to 24 contractions and 3 artefact searches per run; a contraction is given the vertex ids and the "
-           "tables restricted to the artefact's neighbourhood, and the harness checks that nothing outside it changed); the inner-triangle pass, the grouping of artefact "
-           "vertices and the removal of isolated cells are not modelled",
+           "tables restricted to the artefact's neighbourhood, and the harness checks that nothing outside it changed); for three parses per run (meshes of at most 900 pixels) the "
+           "grouping of the artefact vertices and the state after all contractions = `artefacts` / `clean_up` of the model on the whole state; the inner-triangle pass and the "
+           "removal of isolated cells are not modelled",
            "expected topology of the generated images comes from the lattice generator, not from forsys"]
 ASSUMPTIONS = ["generated images follow the convention of the shipped ones: white frame on the image border, skeleton not touching it; framed images are also padded "
                "literally (frame inside the picture), where tissues of few cells fall under known finding D26"]
@@ -175,6 +176,13 @@ class t3_recorder:
         o_t3, o_ga = self.o_t3, self.o_ga
 
         def rec_t3(sk_, artifact):
+            whole = next((r for r in T3REC if r[0] == "ga" and r[3]["sk"] == id(sk_)), None)
+            if whole is not None:
+                # a parse whose artefact search was recorded: the groups handed to the contraction, in order, and the state after the last one
+                o_t3(sk_, artifact)
+                whole[3]["groups"].append([int(a) for a in artifact])
+                whole[3]["final"] = _snap(sk_)
+                return
             if sum(1 for r in T3REC if r[0] == "t3") >= T3CAP["t3"] or sum(1 for r in T3REC if r[0] == "t3" and r[4] == id(sk_)) >= 2:
                 return o_t3(sk_, artifact)
             pre = _snap(sk_)
@@ -184,7 +192,7 @@ class t3_recorder:
         def rec_ga(sk_):
             r = o_ga(sk_)
             if sum(1 for x in T3REC if x[0] == "ga") < T3CAP["ga"] and len(sk_.vertices) <= 900:
-                T3REC.append(("ga", _snap(sk_), [int(a) for a in r]))
+                T3REC.append(("ga", _snap(sk_), [int(a) for a in r], {"sk": id(sk_), "groups": [], "final": None}))
             return r
         cls.do_t3_transition, cls.get_artifacts = rec_t3, rec_ga
         return self
@@ -207,9 +215,13 @@ def t3_cases(res, exprs):
     from fractions import Fraction
     for rec in T3REC:
         if rec[0] == "ga":
-            _, pre, got = rec
-            exprs.append((f"listZ_eqb (get_artifacts {_mesh_lit(pre)}) {C.zlist(got)}", {"what": "get_artifacts", "vertices": len(pre["verts"]), "artefact vertices": got[:12]}))
-            res.count("get_artifacts against Model/SkeletonT3.v")
+            _, pre, got, whole = rec
+            e_ = f"let m := {_mesh_lit(pre)} in listZ_eqb (get_artifacts m) {C.zlist(got)} && listlistZ_eqb (artefacts m) {C.zlistlist(whole['groups'])}"
+            if whole["final"] is not None:
+                e_ += f" && mesh_eqb (clean_up m) {_mesh_lit(whole['final'])}"
+                res.count("whole clean-up pass (all contractions of a parse) against Model/SkeletonT3.v")
+            exprs.append((e_, {"what": "get_artifacts", "vertices": len(pre["verts"]), "artefact vertices": got[:12], "groups": whole["groups"][:6]}))
+            res.count("get_artifacts and the grouping of the artefact vertices against Model/SkeletonT3.v")
             continue
         _, pre, art, post, _ = rec
         ek = {e for v in art for e in pre["ownE"][v]}
